@@ -28,7 +28,9 @@ RULE = (
     "in the grid's data shape, with a leading time axis of length 1 or 2, in canonical shape or of a wrong shape, "
     "plain and masked; each pair through the grid methods, through a real Output >> Input link, and as a script on "
     "the link (static output and input read 2-4 times with and without a time; non-static link with 2-3 "
-    "publications each read 1-3 times) where every read is judged; "
+    "publications each read 1-3 times) where every read is judged; plus scripts on 2-3 living grid objects "
+    "(compatible_with / == / get_transform_to against the same partner repeatedly, data_location changes accepted "
+    "and rejected, shallow and deep copies) where every answer is judged against the objects' current fields; "
     "non-trivial = the grids are compatible and the two layouts differ (a real transformation happens) and the grid "
     "has >= 2 data elements; distinct by canonical case hash"
 )
@@ -165,6 +167,47 @@ def make_seq_case(g, h, static, mode, npulls, rng, masked=None):
             "masked": any(v is None for d in sets for v in d["vals"])}
 
 
+def make_gridseq(rng):
+    """script on 2-3 living grid objects: compare (same partner repeatedly), relocate, copy"""
+    d = rng.choice([1, 2, 2, 3])
+    dims = [rng.randint(1, 3) for _ in range(d)]
+    use_esri = d == 2 and rng.random() < 0.25
+    if use_esri:
+        dims = [max(2, n) for n in dims]
+
+    def one(k):
+        cls = "esri" if (use_esri and k == 1) else rng.choice(["uniform", "rect"])
+        dd = list(dims)
+        if k == 2 and rng.random() < 0.5:
+            j = rng.randrange(d)
+            dd[j] = dd[j] + 1
+        return gdesc(cls, 0, dd, rng.choice("CF"), rng.random() < 0.5, [rng.random() < 0.5 for _ in range(d)],
+                     rng.choice(["CELLS", "POINTS"]))
+
+    grids = [one(k) for k in range(rng.choice([2, 2, 3]))]
+    nobj = len(grids)
+    ops = []
+    pair = (0, 1)
+    for _ in range(rng.randint(4, 14)):
+        r = rng.random()
+        if r < 0.5:
+            if rng.random() < 0.35:
+                pair = (rng.randrange(nobj), rng.randrange(nobj))
+            i, j = pair if rng.random() < 0.7 else pair[::-1]
+            ops.append([rng.choice(["compat", "compat", "eq", "trans"]), i, j])
+        elif r < 0.85:
+            i = rng.choice(pair) if rng.random() < 0.8 else rng.randrange(nobj + 1)
+            ops.append(["set", i, rng.choice(["CELLS", "POINTS"])])
+        else:
+            i = rng.choice(pair)
+            ops.append(["copy", i, rng.random() < 0.3])
+            if i < nobj:
+                nobj += 1
+                if rng.random() < 0.7:
+                    pair = (nobj - 1, pair[1] if pair[1] != i else pair[0])
+    return {"kind": "gridseq", "grids": grids, "ops": ops, "masked": False, "mode": "objects"}
+
+
 def layouts(d):
     return [(rev, inc) for rev in (False, True) for inc in itertools.product((True, False), repeat=d)]
 
@@ -280,10 +323,32 @@ CORPUS_SEQ = [
 ]
 
 
+_GC = _U(False, [True, True], dims=(4, 3))
+_GP = _U(True, [True, False], "POINTS", dims=(4, 3))
+_R3 = gdesc("rect", 1, (3, 2, 2), "C", True, [True, False, True], "POINTS")
+CORPUS_GRIDSEQ = [
+    # seeded defect C15_d: compare, relocate a copy / the object / the partner, compare with the same partner again
+    ([_GC, _U(True, [True, False], dims=(4, 3))],
+     [["compat", 0, 1], ["copy", 0, False], ["set", 2, "POINTS"], ["compat", 2, 1], ["compat", 1, 2], ["trans", 2, 1],
+      ["set", 0, "POINTS"], ["compat", 0, 1], ["compat", 1, 0], ["eq", 0, 1], ["set", 1, "POINTS"], ["compat", 0, 1],
+      ["compat", 1, 0], ["trans", 0, 1], ["eq", 2, 0]]),
+    ([_GP, _GC], [["compat", 0, 1], ["eq", 0, 1], ["set", 0, "CELLS"], ["compat", 0, 1], ["trans", 0, 1], ["eq", 0, 1],
+                  ["copy", 1, True], ["set", 2, "POINTS"], ["compat", 2, 0], ["compat", 0, 2]]),
+    ([_R3, gdesc("rect", 1, (3, 2, 2), "F", False, [True, True, True], "POINTS")],
+     [["trans", 0, 1], ["set", 1, "CELLS"], ["trans", 0, 1], ["compat", 0, 1], ["set", 0, "CELLS"], ["trans", 0, 1]]),
+    ([gdesc("esri", 0, (4, 3), "C", True, [True, False], "CELLS"), _GC],
+     [["compat", 0, 1], ["set", 0, "POINTS"], ["compat", 0, 1], ["set", 1, "POINTS"], ["compat", 0, 1], ["compat", 1, 0],
+      ["trans", 1, 0], ["compat", 0, 5]]),
+]
+
+
 def generate(rng, tier):
     crng = __import__("random").Random(15)
     cases = [make_case(k, g, h, m, crng) for k, g, h, m in CORPUS_SPEC]
     cases += [make_seq_case(g, h, st, m, n, crng) for g, h, st, m, n in CORPUS_SEQ]
+    cases += [{"kind": "gridseq", "grids": gs, "ops": ops, "masked": False, "mode": "objects"} for gs, ops in CORPUS_GRIDSEQ]
+    for _ in range(600 if tier == "quick" else 6000):
+        cases.append(make_gridseq(rng))
     pairs = _pairs((3, 2, 2) if tier == "quick" else (4, 3, 2))
     if tier == "quick":
         # deterministic sample of the product, every (dims, loc, source layout) kept at least once
@@ -352,7 +417,39 @@ def attempt(f):
         return ["err", 3]
 
 
+def run_gridseq(case):
+    objs = [build(d) for d in case["grids"]]
+    res = []
+    for op in case["ops"]:
+        if any(i >= len(objs) for i in op[1:3] if isinstance(i, int) and not isinstance(i, bool)):
+            res.append(["bad"])
+            continue
+        a = objs[op[1]]
+        if op[0] == "compat":
+            res.append(["b", bool(a.compatible_with(objs[op[2]]))])
+        elif op[0] == "eq":
+            res.append(["b", bool(a == objs[op[2]])])
+        elif op[0] == "trans":
+            try:
+                t = a.get_transform_to(objs[op[2]])
+                res.append(["t", "none" if t is None else "fun"])
+            except ValueError:
+                res.append(["t", "err"])
+        elif op[0] == "set":
+            try:
+                a.data_location = G._loc(op[2])
+                res.append(["set", True])
+            except ValueError:
+                res.append(["set", False])
+        else:
+            objs.append(a.copy(deep=bool(op[2])))
+            res.append(["copy"])
+    return {"res": res, "bools": []}
+
+
 def run_impl(case):
+    if case["kind"] == "gridseq":
+        return run_gridseq(case)
     g, h = build(case["g"]), build(case["h"])
     if case["kind"] == "linkseq":
         return run_seq(case, g, h)
@@ -425,7 +522,21 @@ def coq_grid(d):
     return G.coq_spec(c) + " " + P(B(c["order"] == "C"), B(c["rev"]), B(c["loc"] == "POINTS"), N(d["crs"]))
 
 
+def _gop(op):
+    if op[0] in ("compat", "eq", "trans"):
+        return C({"compat": "GCompat", "eq": "GEq", "trans": "GTrans"}[op[0]], N(op[1]), N(op[2]))
+    if op[0] == "set":
+        return C("GSet", N(op[1]), B(op[2] == "POINTS"))
+    return C("GCopy", N(op[1]))
+
+
 def coq_case(case, obs):
+    if case["kind"] == "gridseq":
+        grids = []
+        for d in case["grids"]:
+            c = spec_case(d)
+            grids.append(P(G.coq_spec(c), P(B(c["order"] == "C"), B(c["rev"]), B(c["loc"] == "POINTS"), N(d["crs"]))))
+        return C("CGridSeq", L(grids), L(_gop(o) for o in case["ops"]))
     if case["kind"] == "linkseq":
         ops = []
         for op in case["ops"]:
@@ -444,6 +555,16 @@ def coq_case(case, obs):
 
 
 def _ares(r):
+    if r[0] == "b":
+        return C("ACode", N(1 if r[1] else 0))
+    if r[0] == "t":
+        return C("ACode", N({"err": 10, "none": 11, "fun": 12}[r[1]]))
+    if r[0] == "set":
+        return C("ACode", N(21 if r[1] else 20))
+    if r[0] == "copy":
+        return C("ACode", N(30))
+    if r[0] == "bad":
+        return C("ACode", N(31))
     if r[0] == "ok":
         return C("AOk", G.NL(r[1]), L(VAL(v) for v in r[2]))
     if r[0] == "none":
@@ -494,7 +615,33 @@ def canon_desc(d):
     return {"dims": d["dims"], "loc": d["loc"], "rev": False, "inc": [True] * len(d["dims"])}
 
 
+def _monitor_gridseq(case, obs):
+    cur = [dict(d) for d in case["grids"]]
+    for n, (op, r) in enumerate(zip(case["ops"], obs["res"])):
+        if r == ["bad"]:
+            continue
+        if op[0] in ("compat", "eq", "trans"):
+            a, b = cur[op[1]], cur[op[2]]
+            compat = same_located_axes(a, b)
+            eq = compat and same_layout(a, b)
+            want = {"compat": ["b", compat], "eq": ["b", eq], "trans": ["t", "err" if not compat else "none" if eq else "fun"]}[op[0]]
+            if r != want:
+                return (f"op {n} {op}: answered {r[1]} but the objects currently hold {a['loc']} data on dims {a['dims']} "
+                        f"and {b['loc']} data on dims {b['dims']} (same locations: {compat}, same layout: {eq})")
+        elif op[0] == "set":
+            ok = not (cur[op[1]]["cls"] == "esri" and op[2] == "POINTS")
+            if r != ["set", ok]:
+                return f"op {n} {op}: setter {'accepted' if r[1] else 'rejected'} the location"
+            if ok:
+                cur[op[1]]["loc"] = op[2]
+        else:
+            cur.append(dict(cur[op[1]]))
+    return None
+
+
 def _monitor(case, obs):
+    if case["kind"] == "gridseq":
+        return _monitor_gridseq(case, obs)
     g, h, mode = case["g"], case["h"], case["mode"]
     compat = same_located_axes(g, h)
     tn = {"data": 0, "time1": 1, "time2": 2}.get(mode)
@@ -559,6 +706,18 @@ def monitor(case, obs):
 
 
 def nontrivial(case, obs):
+    if case["kind"] == "gridseq":
+        # a comparison of a pair, a successful relocation of one of the two, the same pair compared again
+        seen, moved = set(), set()
+        for op, r in zip(case["ops"], obs["res"]):
+            if op[0] in ("compat", "eq", "trans") and r != ["bad"]:
+                p = frozenset(op[1:3])
+                if p in seen and (moved & p):
+                    return True
+                seen.add(p)
+            elif op[0] == "set" and r == ["set", True]:
+                moved.add(op[1])
+        return False
     g, h = case["g"], case["h"]
     return (same_located_axes(g, h) and not same_layout(g, h) and int(np.prod(data_shape(g))) >= 2
             and case["mode"] in ("data", "time1", "time2"))
@@ -573,15 +732,24 @@ def distribution(cases, obss):
         "masked": dict(Counter(str(c["masked"]) for c in cases)),
         "seq_static": dict(Counter(str(c["static"]) for c in cases if c["kind"] == "linkseq")),
         "seq_reads": dict(Counter(sum(1 for op in c["ops"] if op[0] == "pull") for c in cases if c["kind"] == "linkseq")),
-        "dim": dict(Counter(len(c["g"]["dims"]) for c in cases)),
-        "classes": dict(Counter(c["g"]["cls"] + ">" + c["h"]["cls"] for c in cases)),
-        "compatible": dict(Counter(str(same_located_axes(c["g"], c["h"])) for c in cases)),
+        "dim": dict(Counter(len(c["g"]["dims"]) for c in cases if "g" in c)),
+        "classes": dict(Counter(c["g"]["cls"] + ">" + c["h"]["cls"] for c in cases if "g" in c)),
+        "compatible": dict(Counter(str(same_located_axes(c["g"], c["h"])) for c in cases if "g" in c)),
+        "gridseq_ops": dict(Counter(op[0] for c in cases if c["kind"] == "gridseq" for op in c["ops"])),
         "result": dict(Counter(o["res"][-1][0] + (str(o["res"][-1][1]) if o["res"][-1][0] == "err" else "")
                                for o in obss if isinstance(o, dict) and "res" in o)),
     }
 
 
 def shrink_candidates(case):
+    if case["kind"] == "gridseq":
+        ops = case["ops"]
+        for i in range(len(ops) - 1, -1, -1):
+            if ops[i][0] != "copy":
+                c = dict(case)
+                c["ops"] = ops[:i] + ops[i + 1:]
+                yield c
+        return
     if case["kind"] == "linkseq":
         ops = case["ops"]
         for i in range(len(ops) - 1, 0, -1):
